@@ -1,8 +1,8 @@
-import CalicoVerif.Proofs.C11IpSet
+import CalicoVerif.Proofs.C11IpSet6
 /-!
 C11 — guards for the IP-set match fragments (`writeIPSetMatch`,
 `writeIPSetOrMatch`) and the ports fragment (`writePortsMatch`, numeric ranges
-and named-port IP sets), IPv4.
+and named-port IP sets), IPv4 and IPv6.
 -/
 namespace CalicoVerif.C11
 
@@ -25,7 +25,6 @@ theorem step_jeq_r0 (env : Env) (m : Mach) (b : Bool)
 /-- Hypotheses shared by the IP-set lemmas. -/
 structure SetCtx (env : Env) (st : List Byte) : Prop where
   len : st.length = 512
-  v4 : env.c.v6 = false
   fd : mapHandle env.c.ipSetMapFD ≠ mapHandle env.c.stateMapFD
 
 /-- One IP set as an independent criterion. -/
@@ -35,8 +34,8 @@ theorem guard_ipset1 (env : Env) (st : List Byte) (hc : SetCtx env st) (L : Labe
         [if neg then jumpNEImm64 R0 0 L else jumpEqImm64 R0 0 L])
       (if neg then !(memRef env (pktOfD st) leg id) else memRef env (pktOfD st) leg id) := by
   intro rest m hI
-  obtain ⟨m', hI', hr, he⟩ := lrun_ipSetLookup env st id leg
-    ([if neg then jumpNEImm64 R0 0 L else jumpEqImm64 R0 0 L] ++ rest) m hI hc.len hc.v4 hc.fd hid
+  obtain ⟨m', hI', hr, he⟩ := lrun_ipSetLookup' env st id leg
+    ([if neg then jumpNEImm64 R0 0 L else jumpEqImm64 R0 0 L] ++ rest) m hI hc.fd hid
   refine ⟨m', hI', ?_⟩
   rw [List.append_assoc, he]
   cases neg with
@@ -74,7 +73,7 @@ theorem guard_ipSetMatch (env : Env) (st : List Byte) (hc : SetCtx env st) (rid 
     refine ⟨?_, ?_⟩
     · have := Guard.append g1 g (by rw [hl]; simp)
       simpa [List.all_cons] using this
-    · rw [labelsOf_append, labelsOf_append, labelsOf_lookup env.c id leg hc.v4, hl]
+    · rw [labelsOf_append, labelsOf_append, labelsOf_lookup' env.c id leg, hl]
       cases neg <;> simp [labelsOf, jumpNEImm64, jumpEqImm64, mkJ]
 
 /-! ### From "tests that jump on a hit" to guards -/
@@ -111,7 +110,7 @@ theorem decides_ipset_test (env : Env) (st : List Byte) (hc : SetCtx env st) (P 
     Decides env st (ipSetLookup env.c id leg ++ [jumpNEImm64 R0 0 P])
       (if memRef env (pktOfD st) leg id then some P else none) := by
   intro rest m hI
-  obtain ⟨m', hI', hr, he⟩ := lrun_ipSetLookup env st id leg ([jumpNEImm64 R0 0 P] ++ rest) m hI hc.len hc.v4 hc.fd hid
+  obtain ⟨m', hI', hr, he⟩ := lrun_ipSetLookup' env st id leg ([jumpNEImm64 R0 0 P] ++ rest) m hI hc.fd hid
   refine ⟨m', hI', ?_⟩
   rw [List.append_assoc, he]
   simp only [List.cons_append, List.nil_append, jumpNEImm64, mkJ, R0]
@@ -137,7 +136,7 @@ theorem decides_ipset_tests (env : Env) (st : List Byte) (hc : SetCtx env st) (P
     refine ⟨?_, ?_⟩
     · have := Decides.seq d1 d (by intro l _; rw [hl]; simp)
       cases hb : memRef env (pktOfD st) leg id <;> simpa [List.any_cons, hb] using this
-    · rw [labelsOf_append, labelsOf_append, labelsOf_lookup env.c id leg hc.v4, hl]
+    · rw [labelsOf_append, labelsOf_append, labelsOf_lookup' env.c id leg, hl]
       simp [labelsOf, jumpNEImm64, mkJ]
 
 /-- `writeIPSetOrMatch`. -/
